@@ -404,19 +404,26 @@ class ProgramIndex:
             except (OSError, IndexError):
                 trait, ty = None, None
             tail = name[m.end():]           # '::method::{closure#0}'...
+            mod = m.group(1)[4:-3].replace('/', '::')
+            if mod.endswith('::mod'):
+                mod = mod[:-5]
+            if mod == 'main':
+                mod = ''
             if ty:
                 tyl = last_seg(ty)
                 if trait:
                     keys.append('<%s as %s>%s' % (tyl, last_seg(trait), tail))
                 else:
                     keys.append('%s%s' % (tyl, tail))
+                    if mod:
+                        keys.append('%s::%s%s' % (mod, tyl, tail))
             b.impl_of = (trait, ty)
         else:
             keys.append(name)
             b.impl_of = None
         for k in keys:
             self.keys.setdefault(k, b)
-        ksegs = split_path(keys[0]) if keys else segs
+        ksegs = split_path(keys[-1]) if keys else segs
         self.by_suffix.setdefault(ksegs[-1], []).append((ksegs, b))
 
     # ---- functions ------------------------------------------------------------------
@@ -432,6 +439,9 @@ class ProgramIndex:
             j = find_top(inner, ' as ')
             selfty = inner[:j]
             trait = last_seg(inner[j + 4:])
+            if _external(selfty):
+                # no crate impl can be meant by name; a crate trait's default method still can
+                return self._suffix_lookup(split_path('%s::%s' % (trait, '::'.join(segs[1:]))))
             tail = '::'.join(segs[1:])
             bound = selfty
             if machine is not None and selfty in machine.generic_bindings:
@@ -462,6 +472,12 @@ class ProgramIndex:
         hits = [b for ks, b in cands if len(ks) >= len(segs) and ks[-len(segs):] == segs]
         if len(hits) == 1:
             return hits[0]
+        if not hits:
+            # the callee is printed with more module segments than the key carries
+            hits = [b for ks, b in cands if len(ks) < len(segs) and segs[-len(ks):] == ks and len(ks) >= 2]
+            if len(hits) == 1:
+                return hits[0]
+            return None
         if len(hits) > 1:
             exact = [b for ks, b in cands if ks == segs]
             if len(exact) == 1:
@@ -553,6 +569,18 @@ class ProgramIndex:
                 res = hits[0]
         cache[key] = res
         return res
+
+_EXTERNAL_ROOTS = ('std', 'core', 'alloc', 'tokio', 'tokio_util', 'tokio_stream', 'bytes', 'futures', 'futures_util',
+                   'serde', 'serde_json', 'anyhow', 'secp256k1', 'lightning_invoice', 'lightning', 'cln_rpc', 'tracing',
+                   'tracing_core', 'tracing_subscriber', 'hex', 'bitcoin', 'bitcoin_hashes', 'aws_sdk_sesv2', 'aws_config',
+                   'async_trait', 'log')
+
+def _external(ty):
+    t = ty.strip().lstrip('&').strip()
+    if t.startswith('mut '):
+        t = t[4:]
+    segs = split_path(t)
+    return len(segs) > 1 and segs[0] in _EXTERNAL_ROOTS
 
 def _span_of(head):
     span = head[1:-1]
